@@ -63,6 +63,12 @@ def apply_impl(objs, op):
         elif kind == "copy":
             res = objs[op[1]].copy()
             extra.append(res)
+        elif kind == "copykw":
+            if op[2].startswith("parent:"):
+                res = objs[op[1]].copy(parent=objs[op[2][7:]])
+            else:
+                res = objs[op[1]].copy(**COPY_BAD_KW[op[2]])
+            extra.append(res)
         else:
             raise AssertionError(op)
         return "ok", extra
@@ -72,6 +78,11 @@ def apply_impl(objs, op):
         return "RecursionError", extra
     except Exception as e:  # any other type is itself reported
         return type(e).__name__, extra
+
+
+# copy(**kwargs) applies the keywords to the copy; a rejected keyword must leave the original where it was
+COPY_BAD_KW = {"position_bad": {"position": "bad"}, "orientation_bad": {"orientation": 1},
+               "style_bad": {"style_nonexistent": 1}, "label_then_bad": {"style_label": "x", "position": (1, 2)}}
 
 
 # ------------------------------------------------------------------ invariant A.3
@@ -314,6 +325,10 @@ def alphabet(names, tier_full=True):
         for c in colls + [None, "BAD"]:
             ops.append(("parent", o, c))
         ops.append(("copy", o))
+        for kwn in COPY_BAD_KW:
+            ops.append(("copykw", o, kwn))
+        for c in colls:
+            ops.append(("copykw", o, "parent:" + c))
     for o1, o2 in pairs:
         ops.append(("plus", o1, o2))
         for ov in (False, True):
@@ -347,6 +362,32 @@ def check_copy(objs, op, extra):
     return errs
 
 
+def check_copykw(objs, op, extra, outcome, before):
+    errs = []
+    if not op[2].startswith("parent:"):
+        if outcome == "ok":
+            errs.append("copykw-invalid-keyword-accepted")
+        if canon(objs) != before:
+            errs.append("rejected-copy-changed-original")
+        return errs
+    if outcome != "ok" or not extra:
+        return ["copykw-parent-failed-" + outcome]
+    cp, tgt = extra[0], objs[op[2][7:]]
+    if cp._parent is not tgt or not tgt._children or tgt._children[-1] is not cp:
+        errs.append("copy-not-appended-to-requested-parent")
+    ids_orig = {id(o) for o in objs.values()}
+    if any(id(o) in ids_orig for o in closure({"cp": cp}) if o is not tgt and id(o) not in {id(q) for q in closure({"t": tgt}) if q is not cp}):
+        errs.append("copy-shares-node")
+    # apart from the new child the universe must be unchanged
+    (st, par), (st0, par0) = canon(objs), before
+    st = tuple((n,) + tuple(tuple(x for x in lst if x != "PHANTOM") if n == op[2][7:] else lst for lst in rest)
+               for (n, *rest) in st)
+    st0 = tuple((n,) + tuple(rest) for (n, *rest) in st0)
+    if (st, par) != (st0, par0):
+        errs.append("copy-with-parent-changed-original")
+    return errs
+
+
 def expand(task):
     names, hist, ops = task
     out = []
@@ -360,7 +401,9 @@ def expand(task):
             errs = sorted(set(errs + check_copy(objs, op, extra)))
             if canon(objs) != before:
                 errs.append("copy-changed-original")
-        if outcome not in ("ok", "MagpylibBadUserInput"):
+        if op[0] == "copykw":
+            errs = sorted(set(errs + check_copykw(objs, op, extra, outcome, before)))
+        elif outcome not in ("ok", "MagpylibBadUserInput"):
             errs.append("exception-" + outcome)
         after = canon(objs, extra)
         # model comparison on successful calls
